@@ -493,10 +493,32 @@ def _stores_between(fn, names, attrs, after, before):
     return False
 
 
+def _fold_assign_return(fn, q, ref, log):
+    """`t = E; return t` -> `return E` for a local t the reference does not have (however many returns use that name)."""
+    a = fn.args
+    params = {x.arg for x in a.posonlyargs + a.args + a.kwonlyargs}
+    for parent in ast.walk(fn):
+        for fld in ('body', 'orelse', 'finalbody'):
+            blk = getattr(parent, fld, None)
+            if not isinstance(blk, list):
+                continue
+            i = 0
+            while i + 1 < len(blk):
+                s0, s1 = blk[i], blk[i + 1]
+                if isinstance(s0, ast.Assign) and len(s0.targets) == 1 and isinstance(s0.targets[0], ast.Name) \
+                        and isinstance(s1, ast.Return) and isinstance(s1.value, ast.Name) and s1.value.id == s0.targets[0].id \
+                        and s0.targets[0].id not in ref and s0.targets[0].id not in params:
+                    blk[i:i + 2] = [ast.copy_location(ast.Return(value=s0.value), s0)]
+                    log.append(('inline-temp', q, s0.targets[0].id))
+                    continue
+                i += 1
+
+
 def inline_temporaries(funcs, table, log):
     for q, fn in funcs:
         ref = table.get(q) or {}
         ast.fix_missing_locations(fn)
+        _fold_assign_return(fn, q, ref, log)
         for _round in range(3):
             if not _inline_temps_once(fn, q, ref, log):
                 break
@@ -658,6 +680,7 @@ def apply(tree, modname):
 def canonical_shapes(tree, modname):
     """Shape canonicalisations applied to every tree (reference and current alike); not logged as refactor reversals."""
     split_parallel_assignments(tree)
+    dedent_else_after_exit(tree)
     expand_literal_kwargs(tree)
     fold_augmented(tree)
     loops_to_comprehensions(tree, [], modname)
@@ -717,6 +740,36 @@ def fold_augmented(tree):
                                 del blk[j]
                                 continue
                 j += 1
+
+
+def dedent_else_after_exit(tree):
+    """`if c: ...; return/raise/continue/break  else: rest`  ->  `if c: ...; return`  followed by `rest` (one shape for an early
+    exit, whether or not the author wrote the `else`)."""
+    if not any(isinstance(n, ast.If) and n.orelse for n in ast.walk(tree)):
+        return
+    for _pass in range(6):
+        if not _dedent_else_once(tree):
+            break
+
+
+def _dedent_else_once(tree):
+    changed = False
+    for parent in list(ast.walk(tree)):
+        for fld in ('body', 'orelse', 'finalbody'):
+            blk = getattr(parent, fld, None)
+            if not isinstance(blk, list) or not blk or not isinstance(blk[0], ast.stmt):
+                continue
+            i = 0
+            while i < len(blk):
+                st = blk[i]
+                if isinstance(st, ast.If) and st.orelse and st.body \
+                        and isinstance(st.body[-1], (ast.Return, ast.Raise, ast.Continue, ast.Break)):
+                    rest = st.orelse
+                    st.orelse = []
+                    blk[i + 1:i + 1] = rest
+                    changed = True
+                i += 1
+    return changed
 
 
 def expand_literal_kwargs(tree):
